@@ -209,33 +209,7 @@ def t_order_noisy(rng, sc):
     return [s2, s3], "value-strict"
 
 
-def uf_depth(p, nz):
-    """depth of the forest a row-major union-find scan (smaller index leads, collapsing find) leaves for the
-    off-diagonal non-zero cells nz of a p x p matrix: 1 = every element points at its leader"""
-    s = list(range(p))
-
-    def find(i):
-        l = i
-        while s[l] != l:
-            l = s[l]
-        s[i] = l
-        return l
-    for r in range(p):
-        for c in range(p):
-            if r != c and (r, c) in nz:
-                i, j = find(r), find(c)
-                if i < j:
-                    s[j] = i
-                elif i > j:
-                    s[i] = j
-    d = 0
-    for i in range(p):
-        n, l = 0, i
-        while s[l] != l:
-            l = s[l]
-            n += 1
-        d = max(d, n)
-    return d
+uf_depth = calcore.uf_depth
 
 
 def add_nonreciprocal(rng, sc, n=2):
@@ -387,10 +361,17 @@ def entry_point_tie(ctx, exe):
             r, c = rng.randint(1, 4), rng.randint(1, 4)
             if i % 3 == 0:
                 r, c = max(r, 3), max(c, 3)
+            if i % 4 == 1:
+                # 4..6 ports: room for union-find forests with two levels (chains need >= 4 ports when the
+                # zero pattern is directional, >= 5 when it is reciprocal)
+                r, c = rng.randint(1, 6), rng.randint(4, 6)
+                if not calcore.is_t(typ):
+                    r, c = c, r
             if dims_allowed(typ, r, c):
                 break
         merr = 1 if rng.random() < 0.15 else 0
-        adds, handle, npar = calcore.gen_struct_case(rng, typ, r, c, rng.randint(2, 10), npar=rng.randint(4, 20))
+        adds, handle, npar = calcore.gen_struct_case(rng, typ, r, c, rng.randint(2, 10) if max(r, c) <= 4 else rng.randint(2, 6),
+                                                     npar=rng.randint(4, 20), forest_prob=0.6 if max(r, c) >= 4 else 0.3)
         cases.append({"typ": typ, "r": r, "c": c, "merr": merr, "adds": adds, "handle": handle, "npar": npar})
     lines = []
     for cs in cases:
@@ -462,6 +443,8 @@ def entry_point_tie(ctx, exe):
             ctx.nontrivial.add(("entry", len(ctx.nontrivial)))
             ctx.traces_validated += 1
     ctx.extra["entry_point_cases"] = len(cases)
+    ctx.extra["entry_point_cases_with_two_level_forest"] = len([1 for cs in cases if cs["adds"] and cs["adds"][0].get("forest_depth", 0) >= 2])
+    ctx.extra["entry_point_cases_5_6_ports"] = len([1 for cs in cases if max(cs["r"], cs["c"]) >= 5])
     ctx.extra["entry_point_calls_accepted"] = nacc
     ctx.extra["entry_point_cell_maps_compared"] = nmaps
     ctx.obligation("tie:model entry points (add_single_reflect .. add_mapped_matrix) and B cell -> M cell map vs the C "
@@ -619,7 +602,7 @@ def run(ctx):
                 "through the public API, or one random call sequence / one standard in all its shapes of the white-box ties; "
                 "distinct non-trivial = pairs in which both sides solved and were compared, sequences whose dumps were compared")
     files = ["Gen/LayoutGen.v", "Cal/TermsModel.v", "Cal/AddModel.v", "Cal/TermsProofs.v", "Cal/C17Proofs.v",
-             "Cal/CalAlgebra.v", "Properties_C17.v"]
+             "Cal/ConnProofs.v", "Cal/OrderProofs.v", "Cal/CalAlgebra.v", "Properties_C17.v"]
     # Gen/LayoutGen.v is regenerated by the translator of C01
     import layout as T5
     try:
